@@ -400,7 +400,7 @@ def native_dtypes(seed=0):
 
     sc = scenarios.Scenario(3, 1, 2, [2], seed=seed)
     try:
-        py, ekf = scenarios.build_ekf(sc, config={"innovation_filtering": None})
+        py, ekf = scenarios.build_ekf(sc, config={"innovation_filtering": None}, mapping_subclasses=True)  # (noises in defaultdicts, models in OrderedDicts)
     except Exception as e:
         return [f"constructing the filter for a valid definition raised {type(e).__name__}: {(str(e).splitlines() or [''])[0]}"], sc
     rng = random.Random(seed + 41)
@@ -435,6 +435,18 @@ def native_dtypes(seed=0):
             o = oracle(sc, pt, P, key, reading, None)
             r = ekf.process_model(float(pt[sc.dt]), state, cov, ctl)
             d = mat_diff(f"{tag} inputs: predicted state", r.state.data[order, :], o["state"]) or mat_diff(f"{tag} inputs: predicted covariance", r.covariance.data[np.ix_(order, order)], o["covariance"])
+            if d:
+                problems.append(d)
+            # the three Jacobians AT a state of this dtype: partial derivatives are not whole numbers because the state's entries are
+            cidx = [[str(a) for a in ekf.Control._arglist].index(u.name) for u in AU] if AU else []
+            Jp = ekf.process_jacobian(float(pt[sc.dt]), state, ctl)
+            d = mat_diff(f"{tag} inputs: process jacobian", np.asarray(Jp)[np.ix_(order, order)], o["G"])
+            if not d and AU:
+                Jc = ekf.control_jacobian(float(pt[sc.dt]), state, ctl)
+                d = mat_diff(f"{tag} inputs: control jacobian", np.asarray(Jc)[np.ix_(order, cidx)], o["V"])
+            if not d:
+                Js = ekf.sensor_jacobian(key, state)
+                d = mat_diff(f"{tag} inputs: sensor jacobian", np.asarray(Js)[:, order], o["H"])
             if d:
                 problems.append(d)
             z = ekf.make_reading(key, data=np.array([[int(reading[rr])] for rr in [str(a) for a in type(ekf.make_reading(key))._arglist]], dtype=dtype))
